@@ -1,5 +1,5 @@
 (* Properties of the render programs of Render.v (functional semantics), by induction on tokens. *)
-From Coq Require Import List NArith Bool Lia.
+From Coq Require Import List NArith Bool Lia Arith Wf_nat.
 From MV Require Import Base.PyStr.
 From MV Require Import Base.Res.
 From MV Require Import Doc.Str.
@@ -139,22 +139,24 @@ Section Frameable.
 
   Ltac fr_step :=
     match goal with
+    | |- forall _, _ => intro
+    | |- _ /\ _ => split
+    | |- True => exact I
     | |- frameable Done _ => exact I
     | |- frameable (Fail _) _ => exact I
-    | |- frameable (FOp _ _) _ => cbn [frameable]; intro
+    | |- frameable (FOp _ _) _ => cbn [frameable]
     | |- frameable (Append _ _) _ => cbn [frameable]
     | |- frameable (CurTag _) _ => cbn [frameable]
-    | |- frameable (Ctx _ _ _ _ _ _) _ => cbn [frameable]; split; [|intro]
-    | |- frameable (Detached _ _ _ _ _ _) _ => cbn [frameable]; split; [|intro]
-    | |- frameable (new_text_elem _ _ _ _) _ => apply frameable_new_text_elem; intro
+    | |- frameable (Ctx _ _ _ _ _ _) _ => cbn [frameable]
+    | |- frameable (Detached _ _ _ _ _ _) _ => cbn [frameable]
+    | |- frameable (new_text_elem _ _ _ _) _ => apply frameable_new_text_elem
     | |- frameable (append_raws _ _) _ => apply frameable_append_raws
     | |- frameable (append_all _ _) _ => apply frameable_append_all
     | |- frameable (append_text _ _) _ => unfold append_text
-    | |- frameable (create_highlighted_code_block _ _ _ _ _ _) _ => apply frameable_chcb; intro
+    | |- frameable (create_highlighted_code_block _ _ _ _ _ _) _ => apply frameable_chcb
     | |- frameable (colspecs _ _ _) _ => apply frameable_colspecs
     | |- frameable (seq _ _) _ => apply frameable_seq
     | |- frameable (render_children (map (build _ _ _) _)) _ => apply kids_frameable; [assumption | reflexivity]
-    | |- frameable (let '(_, _) := ?p in _) _ => destruct p
     | |- frameable (if ?x then _ else _) _ => destruct x
     | |- frameable (match ?x with _ => _ end) _ => destruct x
     end.
@@ -163,7 +165,7 @@ Section Frameable.
     Forall fr_ok cs -> is_section_tag tg = false ->
     frameable (container C OR t (map (build B C OR) cs) tg a0 keys) ctag.
   Proof.
-    intros H Ht. unfold container. cbn [frameable]. intros o [a msgs]. split; [|intro; exact I].
+    intros H Ht. unfold container. cbn [frameable]. intros o [a msgs]. cbn [frameable]. split; [|intro; exact I].
     apply kids_frameable; assumption.
   Qed.
 
@@ -203,7 +205,7 @@ Section Frameable.
     destruct (startswith _ [35%N]); [apply frameable_link_anchor; assumption|].
     destruct (is_sphinx B).
     - destruct (split_hash _ _) as [pd pid].
-      destruct (o_path2doc OR pd) as [[d|]|]; cbn [frameable]; intro x;
+      destruct (o_p2d_raw OR pd) as [d|]; cbn [frameable]; intro x;
         try (apply frameable_wrap; assumption); apply frameable_link_url; assumption.
     - cbn [frameable]. intro w. apply frameable_link_url; assumption.
   Qed.
@@ -260,5 +262,144 @@ Section Frameable.
       cbn [frameable]. intro ob. split; [|intro; exact I].
       rewrite rt_kids_build. apply frameable_seq_all. rewrite map_map. apply Forall_map.
       eapply Forall_impl; [|apply all_sub_kids; exact Hb]. intros r Hr'. apply frameable_table_row. exact Hr'.
+  Qed.
+
+  Lemma frameable_dd d ctag : all_sub fr_ok d -> frameable (render_dd (build B C OR d)) ctag.
+  Proof.
+    intro H. unfold render_dd. rewrite rt_kids_build. pose proof (all_sub_kids_here _ _ H) as Hk.
+    repeat fr_step.
+  Qed.
+
+  Lemma dl_group_all (P : tok -> Prop) cs lead groups :
+    Forall P cs -> dl_group (map (build B C OR) cs) = Good (lead, groups) ->
+    (forall r, In r lead -> exists d, r = build B C OR d /\ P d) /\
+    (forall g, In g groups -> (exists d, fst g = build B C OR d /\ P d) /\
+                              forall r, In r (snd g) -> exists d, r = build B C OR d /\ P d).
+  Proof.
+    revert lead groups. induction cs as [|c cs IH]; intros lead groups Hall E; cbn [map dl_group] in E.
+    - inversion E; subst. split; intros ? [].
+    - inversion Hall as [|? ? Hc Hcs]; subst.
+      destruct (dl_group (map (build B C OR) cs)) as [[lead' groups']|e] eqn:Er; [|discriminate].
+      destruct (IH lead' groups' Hcs eq_refl) as [IHl IHg].
+      rewrite rt_tok_build in E.
+      destruct (kind_of (ty c)); try discriminate; inversion E; subst.
+      + (* dt *) split; [intros ? []|]. intros g [Hg|Hg].
+        * subst g. cbn [fst snd]. split; [exists c; auto|]. exact IHl.
+        * apply IHg. exact Hg.
+      + (* dd *) split; [|exact IHg]. intros r [Hr|Hr]; [subst r; exists c; auto | apply IHl; exact Hr].
+  Qed.
+
+  Lemma frameable_dl_item g ctag :
+    (exists d, fst g = build B C OR d /\ all_sub fr_ok d) ->
+    (forall r, In r (snd g) -> exists d, r = build B C OR d /\ all_sub fr_ok d) ->
+    frameable (render_dl_item g) ctag.
+  Proof.
+    intros [d [Ed Hd]] Hs. unfold render_dl_item. rewrite Ed, rt_kids_build.
+    pose proof (all_sub_kids_here _ _ Hd) as Hk.
+    cbn [frameable]. intros oi ot. cbn [frameable]. split; [|intro; exact I]. split.
+    - apply kids_frameable; [assumption|reflexivity].
+    - intro term. cbn [frameable]. apply frameable_seq_all. apply Forall_map. apply Forall_forall.
+      intros r Hr. destruct (Hs r Hr) as [d' [Er Hd']]. subst r. apply frameable_dd. exact Hd'.
+  Qed.
+
+  Lemma frameable_field n b ctag :
+    all_sub fr_ok n -> match b with Some b' => all_sub fr_ok b' | None => True end ->
+    frameable (render_field (build B C OR n) (option_map (build B C OR) b)) ctag.
+  Proof.
+    intros Hn Hb. unfold render_field. rewrite rt_kids_build.
+    pose proof (all_sub_kids_here _ _ Hn) as Hk.
+    cbn [frameable]. intros of on. cbn [frameable]. split; [|intro; exact I]. split.
+    - apply kids_frameable; [assumption|reflexivity].
+    - intros d ob. cbn [frameable]. split; [|intro; exact I].
+      destruct b as [b'|]; cbn [option_map]; [|exact I].
+      rewrite rt_kids_build. apply kids_frameable; [apply all_sub_kids_here; exact Hb | reflexivity].
+  Qed.
+
+  Lemma frameable_field_loop cs ctag :
+    Forall (all_sub fr_ok) cs -> frameable (field_loop (map (build B C OR) cs)) ctag.
+  Proof.
+    (* strong induction on the length: the loop consumes one or two tokens *)
+    remember (length cs) as n eqn:En. revert cs En.
+    induction n as [n IH] using lt_wf_ind. intros cs En H.
+    destruct cs as [|c1 cs]; cbn [map field_loop]; [exact I|].
+    inversion H as [|? ? H1 Hr]; subst.
+    rewrite rt_tok_build. destruct (kind_of (ty c1)); try exact I.
+    destruct cs as [|c2 cs]; cbn [map].
+    - apply (frameable_field c1 None); auto.
+    - inversion Hr as [|? ? H2 Hr2]; subst. rewrite rt_tok_build.
+      assert (IHr : frameable (field_loop (map (build B C OR) (c2 :: cs))) ctag)
+        by (apply (IH (length (c2 :: cs))); [cbn [length]; lia | reflexivity | exact Hr]).
+      assert (IHr2 : frameable (field_loop (map (build B C OR) cs)) ctag)
+        by (apply (IH (length cs)); [cbn [length]; lia | reflexivity | exact Hr2]).
+      destruct (kind_of (ty c2));
+        try (apply frameable_seq; [ apply (frameable_field c1 None); auto | exact IHr ]).
+      apply frameable_seq; [ apply (frameable_field c1 (Some c2)); auto | exact IHr2 ].
+  Qed.
+
+  Theorem build_frameable : forall t, all_sub fr_ok t.
+  Proof.
+    induction t as [ty0 tag0 attrs0 content0 markup0 info0 meta0 map0 cs IHcs] using tok_ind'.
+    set (t := Tok ty0 tag0 attrs0 content0 markup0 info0 meta0 map0 cs).
+    constructor; [|exact IHcs].
+    assert (Hk : Forall fr_ok cs) by (eapply Forall_impl; [|exact IHcs]; apply all_sub_here).
+    intros ctag Hc. rewrite rt_run_build. change (children t) with cs.
+    rewrite opens_section_eq in Hc. change (children t) with cs in Hc. change (ty t) with ty0 in Hc.
+    unfold dispatch. change (ty t) with ty0.
+    destruct (has_rule B ty0); cbn [negb]; [|repeat fr_step].
+    destruct (kind_of ty0) eqn:K; try exact I.
+    - (* paragraph *) apply frameable_container; auto.
+    - (* inline *) apply kids_frameable_transparent; auto.
+    - (* text *) unfold render_text. repeat fr_step.
+    - (* softbreak *) unfold render_softbreak. repeat fr_step.
+    - (* hardbreak *) unfold render_hardbreak. repeat fr_step.
+    - (* em *) unfold render_em. repeat fr_step.
+    - (* strong *) unfold render_strong. repeat fr_step.
+    - (* s *) unfold render_s. cbn [frameable]. intro w.
+      destruct s_raws as [|r1 [|r2 [|? ?]]]; try exact I.
+      apply frameable_append_raws. apply frameable_seq.
+      + apply kids_frameable_transparent; auto.
+      + apply frameable_append_raws. exact I.
+    - (* code_inline *) unfold render_code_inline. repeat fr_step.
+    - (* code_block *) unfold render_code_block. repeat fr_step.
+    - (* fence *) unfold render_fence. repeat fr_step.
+    - (* blockquote *) unfold render_blockquote. destruct (has_key _ _); [exact I|].
+      apply frameable_container; auto.
+    - (* bullet_list *) apply frameable_container; auto.
+    - (* ordered_list *) apply frameable_container; auto.
+    - (* list_item *) apply frameable_container; auto.
+    - (* hr *) unfold render_hr. repeat fr_step.
+    - (* heading *)
+      destruct Hc as [Hc|Hc]; [|discriminate].
+      unfold render_heading. destruct (heading_level _); [|exact I].
+      cbn [frameable]. rewrite Hc. cbn [negb]. repeat fr_step.
+    - (* link *) apply frameable_link; auto.
+    - (* image *) unfold render_image. repeat fr_step.
+    - (* html_block *) unfold render_html_block. repeat fr_step.
+    - (* html_inline *) unfold render_html_inline, render_html_block. repeat fr_step.
+    - (* table *) apply frameable_table; auto.
+    - (* math_inline *) unfold render_math_inline. repeat fr_step.
+    - (* math_inline_double *) unfold render_math_block. repeat fr_step.
+    - (* math_single *) unfold render_math_inline. repeat fr_step.
+    - (* math_block *) unfold render_math_block. repeat fr_step.
+    - (* math_block_label *) unfold render_math_block_label, add_math_target. repeat fr_step.
+    - (* amsmath *) unfold render_amsmath, add_math_target. repeat fr_step.
+    - (* footnote_ref *) unfold render_footnote_ref. repeat fr_step.
+    - (* footnote_reference *) unfold render_footnote_reference. repeat fr_step.
+    - (* myst_target *) unfold render_myst_target. repeat fr_step.
+    - (* myst_block_break *) unfold render_myst_block_break. repeat fr_step.
+    - (* myst_line_comment *) unfold render_myst_line_comment. repeat fr_step.
+    - (* dl *)
+      unfold render_dl. cbn [frameable]. intros o [a msgs].
+      destruct (_ && _); [exact I|].
+      destruct (dl_group (map (build B C OR) cs)) as [[lead groups]|e] eqn:Eg; [|exact I].
+      destruct lead; [|exact I].
+      destruct (dl_group_all (all_sub fr_ok) cs [] groups IHcs Eg) as [_ Hg].
+      cbn [frameable]. split; [|intro; exact I].
+      apply frameable_seq_all. apply Forall_map. apply Forall_forall. intros g Hin.
+      destruct (Hg g Hin) as [Hf Hs]. apply frameable_dl_item; assumption.
+    - (* field_list *)
+      unfold render_field_list. cbn [frameable]. intros o [a msgs]. cbn [frameable].
+      split; [|intro; exact I]. apply frameable_field_loop. exact IHcs.
+    - (* span *) apply frameable_container; auto.
   Qed.
 End Frameable.
